@@ -109,7 +109,7 @@ def stepPacked (w : PackedWorld) (op : String) (a : Args) : PackedWorld × Strin
     match a.pos[i]? with
     | none => bad "no-name"
     | some n => match w.get? n with
-      | none => bad "no-such-array"
+      | none => (w, "err LookupError")       -- its creation raised earlier (same answer as the real side)
       | some p => k p
   let mut' (r : Except PErr Heap) : PackedWorld × String :=
     match r with
